@@ -98,33 +98,25 @@ func (c *Ctx) factsAt(root ast.Node, target ast.Node) []fact {
 	return facts
 }
 
-// splitConj flattens a condition that is known with polarity pos into
-// atomic (cond, polarity) pairs: (a && b) true gives a, b true; (a || b) false gives a, b false.
+// splitFacts flattens the facts into the atomic conditions that are known
+// to hold (negation normal form; atoms under a disjunction are not known
+// individually and are left out).
 func splitFacts(fs []fact) []fact {
 	var out []fact
-	var walk func(e ast.Expr, pos bool, init *ast.AssignStmt)
-	walk = func(e ast.Expr, pos bool, init *ast.AssignStmt) {
-		e = stripParens(e)
-		switch x := e.(type) {
-		case *ast.UnaryExpr:
-			if x.Op == token.NOT {
-				walk(x.X, !pos, init)
-				return
-			}
-		case *ast.BinaryExpr:
-			if (x.Op == token.LAND && pos) || (x.Op == token.LOR && !pos) {
-				walk(x.X, pos, init)
-				walk(x.Y, pos, init)
-				return
-			}
-			if x.Op == token.LAND || x.Op == token.LOR {
-				return // a disjunction gives no atomic fact
-			}
-		}
-		out = append(out, fact{e, pos, init})
-	}
 	for _, f := range fs {
-		walk(f.Cond, f.Pos, f.Init)
+		n := curCtx.nnf(f.Cond, f.Pos, f.Init)
+		for _, a := range n.knownAtoms() {
+			out = append(out, fact{a.E, a.Pos, a.Init})
+		}
+	}
+	return out
+}
+
+// factNFs gives each fact in negation normal form (for rules that accept disjunctions).
+func factNFs(fs []fact) []*condNF {
+	var out []*condNF
+	for _, f := range fs {
+		out = append(out, curCtx.nnf(f.Cond, f.Pos, f.Init))
 	}
 	return out
 }
@@ -171,13 +163,15 @@ func (c *Ctx) hasKindFact(facts []fact, obj types.Object, kinds ...string) bool 
 		if !((be.Op == token.NEQ && !f.Pos) || (be.Op == token.EQL && f.Pos)) {
 			continue
 		}
-		lhs := c.initDef(f, be.X)
-		if _, ok := c.methodOn(lhs, obj, "reflect.Value.Kind"); !ok {
-			continue
-		}
-		for _, k := range kinds {
-			if qname(c.objOf(be.Y)) == "reflect."+k {
-				return true
+		for _, side := range [][2]ast.Expr{{be.X, be.Y}, {be.Y, be.X}} {
+			lhs := c.initDef(f, side[0])
+			if _, ok := c.methodOn(lhs, obj, "reflect.Value.Kind"); !ok {
+				continue
+			}
+			for _, k := range kinds {
+				if qname(c.objOf(side[1])) == "reflect."+k {
+					return true
+				}
 			}
 		}
 	}
